@@ -41,6 +41,7 @@ type vpConn struct {
 	armed         bool
 	readsUnarmed  int
 	zeroDeadlines int
+	badDeadlines  int
 	// event order (C07, C12)
 	log  *vpEventLog
 	hook func() // called at every Read and Close
@@ -64,9 +65,8 @@ func (c *vpConn) Read(p []byte) (int, error) {
 	c.reads++
 	vpAssume(c.reads <= c.maxReads) // stated schedule bound
 	if !c.armed {
-		c.readsUnarmed++
+		c.readsUnarmed++ // no finite deadline is in force for this read
 	}
-	c.armed = false
 	c.log.add("read")
 	if c.hook != nil {
 		c.hook()
@@ -92,7 +92,7 @@ func (c *vpConn) Read(p []byte) (int, error) {
 		}
 		c.chunk++
 	} else if c.segment {
-		n = vpInt(1, n)
+		n = vpIntC(1, n)
 	}
 	copy(p, c.in[c.pos:c.pos+n])
 	c.pos += n
@@ -123,9 +123,12 @@ func (c *vpConn) SetDeadline(t time.Time) error      { return nil }
 func (c *vpConn) SetWriteDeadline(t time.Time) error { return nil }
 func (c *vpConn) SetReadDeadline(t time.Time) error {
 	c.deadlineSet++
-	c.armed = true
+	c.armed = !t.IsZero() // a deadline is absolute: it stays in force until it is changed
 	if t.IsZero() {
 		c.zeroDeadlines++
+	} else if d := time.Until(t); d <= 0 || d > 16*time.Second {
+		// the loop arms now+15s: anything in the past or further away is not the intended deadline
+		c.badDeadlines++
 	}
 	return nil
 }
